@@ -93,6 +93,11 @@ def check(prog, run):
         init = cls.lookup("__init__")[0]
         line = init.node.lineno if isinstance(init, FuncVal) else None
         cons = construct_all(prog, key, entry)
+        # the same constructor with every integer argument given as the bool True (an int subclass: flags are commonly passed
+        # that way): True is the number 1 wherever it lands
+        bool_args = [(n, ("const", True)) if d[0] == "bits" else (n, d) for n, d in entry["args"]]
+        if bool_args != list(entry["args"]) and cons:
+            cons = cons + construct_all(prog, key, entry, sets=[cons[0].setname], args_override=bool_args)
         if not cons:
             run.violation("command-offered-somewhere", key, "no command-set table defines %s" % entry["names"], file, line)
             continue
